@@ -426,3 +426,33 @@ func WithHeaderKey(base Bearer, hv HeaderVariant, kv KeyVariant, secret string) 
 	b.Label = "header:" + hv.Label + "+key:" + kv.Label
 	return b
 }
+
+// UpgradeHeaderSets is the request-header dimension for websocket upgrades (and HTTP requests): forwarding
+// headers in every shape proxies and clients produce, correlation ids, timing headers. None of them may change
+// what the relay decides.
+func UpgradeHeaderSets() []map[string][]string {
+	long := strings.Repeat("198.51.100.7, ", 300)
+	return []map[string][]string{
+		nil,
+		{"X-Forwarded-For": {"203.0.113.7"}},
+		{"X-Forwarded-For": {"203.0.113.7, 10.0.0.1, 192.168.1.1"}},
+		{"X-Forwarded-For": {"203.0.113.7:4711"}},
+		{"X-Forwarded-For": {"[2001:db8::7]:443"}},
+		{"X-Forwarded-For": {"[2001:db8::7"}},
+		{"X-Forwarded-For": {"2001:db8::7]"}},
+		{"X-Forwarded-For": {"[]"}},
+		{"X-Forwarded-For": {"["}},
+		{"X-Forwarded-For": {""}},
+		{"X-Forwarded-For": {"unknown, _hidden"}},
+		{"X-Forwarded-For": {long}},
+		{"X-Forwarded-For": {"203.0.113.7", "[2001:db8::1"}},
+		{"X-Real-Ip": {"203.0.113.9"}, "X-Forwarded-For": {",,"}},
+		{"Forwarded": {"for=\"[2001:db8:cafe::17]:4711\";proto=https;by=203.0.113.43"}},
+		{"Forwarded": {"for=\"[2001:db8"}},
+		{"X-Request-Id": {"same-request-id"}, "X-Correlation-Id": {"same-correlation-id"}, "Traceparent": {"00-4bf92f3577b34da6a3ce929d0e0e4736-00f067aa0ba902b7-01"}},
+		{"X-Request-Start": {"t=1"}},
+		{"X-Request-Start": {"t=99999999999999999999"}},
+		{"X-Request-Start": {"garbage"}},
+		{"X-Forwarded-Proto": {"https"}, "X-Forwarded-Host": {"relay.example.test."}, "X-Forwarded-Port": {"65536"}},
+	}
+}
